@@ -80,6 +80,13 @@ func CheckStorageHealth(storage SlabStorage, expectedNumberOfRootSlabs int) (map
 		}
 	}
 
+	// Every referenced slab must exist in storage (no dangling reference).
+	for childID := range parentOf {
+		if _, ok := slabs[childID]; !ok {
+			return nil, NewSlabNotFoundErrorf(childID, "referenced slab is missing in storage")
+		}
+	}
+
 	rootsMap := make(map[SlabID]struct{})
 	visited := make(map[SlabID]struct{})
 	var id SlabID
